@@ -386,7 +386,7 @@ def build_case(seg, rec, root):
             used.add(op[1])
     used.add(dst)
     boot_paths = sorted(p for p in initial if p in used and initial[p].get("exists"))
-    all_small = all(v["len"] <= SMALL for v in versions) and all(initial[p]["len"] <= SMALL for p in boot_paths)
+    all_small = all(v["len"] <= SMALL and v.get("want_len", 0) <= SMALL for v in versions) and all(initial[p]["len"] <= SMALL for p in boot_paths)
     writes_visible = all(op[-1] is not None for op in ops if op[0] in ("W", "PW"))
     bm = all_small and writes_visible
     seq = [0]
@@ -449,11 +449,20 @@ def build_case(seg, rec, root):
     trace_term = segs_out[0] if len(segs_out) == 1 else "(concat %s)" % glist(segs_out or ["[]"])
     # versions the harness saw: before the first save, after every SUCCESSFUL save
     # that replaced the file (a failed or skipped save publishes nothing)
-    pub = [versions[0]] + [v for v in versions[1:] if not v.get("err") and not v.get("skipped")]
-    lens = [gopt("%d" % v["len"]) if v["exists"] else "None" for v in pub]
+    pub = [versions[0]] + [v for v in versions[1:]
+                            if not v.get("err") and not v.get("skipped") and not v.get("expect_err")]
+    # where the harness knows the intended content independently, that is what
+    # the published version is compared with, not what was read back
+    def vlen(v):
+        return v["want_len"] if v.get("has_want") else v["len"]
+
+    def vhex(v):
+        return v.get("want_hex", "") if v.get("has_want") else v.get("hex", "")
+
+    lens = [gopt("%d" % vlen(v)) if v["exists"] or v.get("has_want") else "None" for v in pub]
     vers = []
     if bm:
-        vers = [gopt(gdata(list(bytes.fromhex(v.get("hex", ""))))) if v["exists"] else "None" for v in pub]
+        vers = [gopt(gdata(list(bytes.fromhex(vhex(v))))) if v["exists"] or v.get("has_want") else "None" for v in pub]
     keep = [str(P(p)) for p in rec.get("keep") or []]
     coq = "(CTrace 1 %s %s %s %s %s %s)%%N" % (
         glist(keep), glist(ents), trace_term, gb(bm), glist(lens), glist(vers))
@@ -484,6 +493,8 @@ def main():
         msgs = []
         if rec.get("reader_bad"):
             msgs.append(("reader", rec["reader_bad"]))
+        if rec.get("content_bad"):
+            msgs.append(("content", rec["content_bad"]))
         pv = python_verdict(seg.ops, rec["dst"], [p for p, v in (rec.get("initial") or {}).items() if v.get("exists")])
         if pv:
             msgs.append(("trace", "system-call trace of %s is not crash-safe for %s: %s" % (
